@@ -26,7 +26,8 @@ RULE = (
     "max_value) whose operands are drawn either from a typed 'real by construction' grammar (real literals, x, cell "
     "geometry, abs/real/imag of arbitrary complex expressions, closed under + * integer powers, sin/cos/exp/tanh/atan, "
     "conditionals) or from the unrestricted complex grammar (coefficients, constants, complex literals, sqrt, "
-    "fractional powers, ln/acos/asin of possibly negative reals, conj); embedded in arithmetic context. real mode: "
+    "fractional powers, ln/acos/asin of possibly negative reals, conj); embedded in arithmetic context or below "
+    "functions (sqrt/ln/acos/asin/Bessel/sin/exp), powers, abs, conj, real. real mode: "
     "expressions from the grammar with conj/real/imag nodes and complex literals. non-trivial = (complex) a comparison "
     "site with a non-trivial real operand accepted and compared, or a numerically complex operand rejected; (real) an "
     "expression with at least one conj/real node removed or an imag/complex literal rejected; distinct = distinct recipe."
@@ -124,9 +125,20 @@ def complex_cases(draw):
 
     e = site()
     for _ in range(draw(st.integers(0, 2))):
-        k = draw(st.sampled_from(["add", "mul", "site"]))
+        k = draw(st.sampled_from(["add", "mul", "site", "under", "under"]))
         if k == "site":
             e = ["add", e, site()]
+        elif k == "under":
+            # the comparison site below another operator: functions (also the ones typed 'complex'), powers, abs, ...
+            u = draw(st.sampled_from(["sqrt", "ln", "acos", "asin", "bessel", "sin", "exp", "abs", "conj", "real", "pow", "neg"]))
+            if u in ("sqrt", "ln", "acos", "asin", "sin", "exp"):
+                e = ["fn", u, ["mul", ["lit", 0.3], e]]
+            elif u == "bessel":
+                e = ["bessel", draw(st.sampled_from(["J", "I"])), draw(st.sampled_from([0, 1])), ["real", e]]
+            elif u == "pow":
+                e = ["pow", e, ["lit", draw(st.sampled_from([2, 0.5]))]]
+            else:
+                e = [u, e]
         else:
             e = [k, e, R.any(1)]
     return {"world": world, "expr": e, "vars": G.vars, "mode": "complex", "all_real": all_real}
